@@ -424,6 +424,9 @@ def static_observables(pt):
         'parameter_names': outcome(lambda: tuple(sorted(pt.parameter_names))),
         'defined_channels': outcome(lambda: tuple(sorted(pt.defined_channels, key=repr))),
         'measurement_names': outcome(lambda: tuple(sorted(pt.measurement_names))),
+        # the declared integral of an abstract template ("raises NotSpecifiedError" is an outcome of its own)
+        'integral': outcome(lambda: tuple(sorted((str(k), str(v)) for k, v in pt.integral.items())))
+        if type(pt).__name__ == 'AbstractPulseTemplate' else ('skipped', None),
     }
 
 
@@ -980,6 +983,10 @@ def witness(name: str):
     if name == 'numpy_count':
         import numpy
         return [P.RepetitionPT(P.ConstantPT(1, {'A': 1}), numpy.int64(3), identifier='r')], [{}]
+    if name == 'abstract_empty_declarations':
+        a = P.AbstractPT('abs', defined_channels={'A'}, parameter_names=set(), measurement_names=set())
+        b = P.AbstractPT('abs2', integral={}, parameter_names=set())
+        return [P.SequencePT(a, P.ConstantPT(1, {'A': 1}), identifier='s'), b], []
     if name == 'digit_channels':
         c = P.ConstantPT('d', {'1': 'v', '2': 1}, identifier='c', measurements=[('m', 0, 'd')])
         return [P.SequencePT(c, P.MappingPT(P.ConstantPT('d', {'0': 2, 'A': 'v'}), channel_mapping={'0': '1', 'A': '2'}),
@@ -1130,13 +1137,21 @@ def small_scope(ctx) -> List[Case]:
                 pair.append(P.ForLoopPT(P.ConstantPT('d0', {'A': 'i*v0'}), 'i', r, identifier=ident('loop')))
             cases.append(Built(pair, backend=['dict', 'fs', 'zip'][len(cases) % 3],
                                assign=[{'d0': 1.5, 'v0': 0.25, 'n0': 2}, {'d0': 1, 'v0': 1 / 3, 'n0': 0}]))
-    # AbstractPT: every subset of the declared interface
-    keys = ['defined_channels', 'parameter_names', 'measurement_names', 'integral', 'duration']
-    vals = {'defined_channels': {'A', 'B'}, 'parameter_names': {'p', 'q'}, 'measurement_names': {'m'},
-            'integral': {'A': 'p', 'B': 1}, 'duration': 'p*2'}
-    for k in range(len(keys) + 1):
-        for sub in itertools.combinations(keys, k):
-            cases.append(Built([P.AbstractPT(ident('abs'), **{s: vals[s] for s in sub})], assign=[]))
+    # AbstractPT: every declared interface property absent / declared / declared EMPTY (an empty declaration is a declaration)
+    opts5 = {'defined_channels': [None, {'A', 'B'}, set()], 'parameter_names': [None, {'p', 'q'}, set()],
+             'measurement_names': [None, {'m'}, set()], 'integral': [None, {'A': 'p', 'B': 1}, {}],
+             'duration': [None, 'p*2']}
+    for combo in itertools.product(*opts5.values()):
+        kw = {k: v for k, v in zip(opts5, combo) if v is not None}
+        if 'integral' in kw and 'defined_channels' in kw and set(kw['integral']) != set(kw['defined_channels']):
+            continue                                   # (rejected by the constructor)
+        cases.append(Built([P.AbstractPT(ident('abs'), **kw)], backend=['dict', 'fs', 'zip'][len(cases) % 3], assign=[]))
+    # … and as a named child: the parent's interface goes through the child's
+    for pn, mn in itertools.product(({'p'}, set()), ({'m'}, set())):
+        child = P.AbstractPT(ident('abs'), defined_channels={'A'}, parameter_names=pn, measurement_names=mn)
+        cases.append(Built([P.SequencePT(child, P.ConstantPT(1, {'A': 1}), identifier=ident())], assign=[]))
+        child = P.AbstractPT(ident('abs'), defined_channels={'A'}, parameter_names=pn, measurement_names=mn)
+        cases.append(Built([P.RepetitionPT(child, 'n0', identifier=ident())], assign=[]))
     # store orders of a shared object
     for perm in range(4):
         roots, assign = witness('shared')
